@@ -17,6 +17,8 @@
 
 #[path = "../c10/builtins.rs"]
 mod builtins;
+#[path = "../c10/conc.rs"]
+mod conc;
 
 use builtins::{Arg, Case, canon_kind, make_caller};
 use roto::{FileTree, Runtime};
@@ -87,6 +89,11 @@ fn sig_name(s: i32) -> String {
     }
 }
 
+/// "kills the host process (SIGABRT)" / "never returns (timeout: the call hangs)"
+fn kills(how: &str) -> String {
+    if how == "timeout" { "never returns (timeout: the call hangs the calling host thread)".to_string() } else { format!("kills the host process ({how})") }
+}
+
 fn ended_str(e: &Ended) -> String {
     match e {
         Ended::Exit(c, _) => format!("exit {c}"),
@@ -105,9 +112,13 @@ fn unhex(s: &str) -> String {
 
 /// Run jobs (`worker` argument vectors) in parallel, each in its own process.
 fn run_parallel(jobs: &[Vec<String>], timeout: Duration) -> Vec<Ended> {
+    run_parallel_n(jobs, timeout, 8)
+}
+
+fn run_parallel_n(jobs: &[Vec<String>], timeout: Duration, max: usize) -> Vec<Ended> {
     let next = AtomicUsize::new(0);
     let out: Mutex<Vec<Option<Ended>>> = Mutex::new(vec![None; jobs.len()]);
-    let threads = std::thread::available_parallelism().map(|n| n.get()).unwrap_or(4).min(8);
+    let threads = std::thread::available_parallelism().map(|n| n.get()).unwrap_or(4).min(max);
     std::thread::scope(|s| {
         for _ in 0..threads {
             s.spawn(|| {
@@ -350,6 +361,25 @@ fn builtin_key(c: &Case, how: &str) -> String {
     format!("{verb} {} {}", c.name, c.class)
 }
 
+/// `Driver::ask_all` writes a chunk of requests before it reads the answers: the
+/// requests of one chunk must fit the pipe (long list arguments), or both sides
+/// block.  Batches of at most 16 KB of request text.
+fn ask_sized(drv: &mut Driver, reqs: &[String]) -> Vec<String> {
+    let mut out = Vec::with_capacity(reqs.len());
+    let mut from = 0;
+    while from < reqs.len() {
+        let mut to = from;
+        let mut bytes = 0usize;
+        while to < reqs.len() && (to == from || bytes + reqs[to].len() + 1 <= 16 * 1024) && to - from < 256 {
+            bytes += reqs[to].len() + 1;
+            to += 1;
+        }
+        out.extend(drv.ask_all(&reqs[from..to]));
+        from = to;
+    }
+    out
+}
+
 fn builtin_part(rep: &mut Report, viol: &mut Viol, drv: &mut Driver, seed: u64, thorough: bool, workdir: &std::path::Path) {
     let cases = builtins::cases(seed, thorough);
     // coverage: every registered built-in is exercised by at least one case
@@ -370,7 +400,7 @@ fn builtin_part(rep: &mut Report, viol: &mut Viol, drv: &mut Driver, seed: u64, 
     // model predictions
     let with_model: Vec<usize> = (0..cases.len()).filter(|i| cases[*i].lean.is_some()).collect();
     let reqs: Vec<String> = with_model.iter().map(|i| cases[*i].lean.clone().unwrap()).collect();
-    let answers = drv.ask_all(&reqs);
+    let answers = ask_sized(drv, &reqs);
     let mut pred: Vec<Option<String>> = vec![None; cases.len()];
     for (i, a) in with_model.iter().zip(answers) {
         if a == "bad-op" {
@@ -379,11 +409,11 @@ fn builtin_part(rep: &mut Report, viol: &mut Viol, drv: &mut Driver, seed: u64, 
             pred[*i] = Some(a);
         }
     }
-    let singles: Vec<usize> = (0..cases.len()).filter(|i| pred[*i].as_deref() == Some("panic")).collect();
-    let batched: Vec<usize> = (0..cases.len()).filter(|i| pred[*i].as_deref() != Some("panic")).collect();
-    // --- predicted panics: one worker each
+    let singles: Vec<usize> = (0..cases.len()).filter(|i| pred[*i].as_deref() == Some("panic") || cases[*i].solo).collect();
+    let batched: Vec<usize> = (0..cases.len()).filter(|i| pred[*i].as_deref() != Some("panic") && !cases[*i].solo).collect();
+    // --- predicted panics and solo cases (self-referential arguments): one worker each, short timeout
     let jobs: Vec<Vec<String>> = singles.iter().map(|i| one_job(&case_json(&cases[*i]))).collect();
-    let ended = run_parallel(&jobs, Duration::from_secs(60));
+    let ended = run_parallel(&jobs, Duration::from_secs(20));
     for (i, e) in singles.iter().zip(ended) {
         let c = &cases[*i];
         rep.evaluations += 1;
@@ -393,6 +423,20 @@ fn builtin_part(rep: &mut Report, viol: &mut Viol, drv: &mut Driver, seed: u64, 
         }
         rep.hist("builtin-arg-class", format!("{} {}", c.name, c.class));
         match &e {
+            Ended::Exit(0, out) if pred[*i].as_deref() != Some("panic") => {
+                let r = out.trim().strip_prefix("RESULT ").unwrap_or(out.trim()).to_string();
+                rep.hist("builtin-outcome", canon_kind(&r));
+                rep.class(format!("builtin|{}|{}|{}", c.name, c.class, canon_kind(&r)));
+                if let Some(p) = &pred[*i] {
+                    rep.hist("builtin-model-compared", c.name);
+                    if *p != r {
+                        rep.mismatch(
+                            "Model/Builtins (generated bindings + model) differs from the real built-in's result",
+                            json!({"case": case_json(c), "request": c.lean, "lean": p, "real": r}),
+                        );
+                    }
+                }
+            }
             Ended::Exit(0, out) => {
                 rep.class(format!("builtin|{}|{}|returned", c.name, c.class));
                 rep.mismatch(
@@ -408,7 +452,7 @@ fn builtin_part(rep: &mut Report, viol: &mut Viol, drv: &mut Driver, seed: u64, 
                 input["ended"] = json!(how);
                 viol.add(
                     rep,
-                    &format!("built-in {} kills the host process ({how}) on argument class `{}`", c.name, c.class),
+                    &format!("built-in {} {} on argument class `{}`", c.name, kills(&how), c.class),
                     &builtin_key(c, &how),
                     input,
                 );
@@ -459,7 +503,7 @@ fn builtin_part(rep: &mut Report, viol: &mut Viol, drv: &mut Driver, seed: u64, 
         }
         viol.add(
             rep,
-            &format!("built-in {} kills the host process ({how}) on argument class `{}`", c.name, c.class),
+            &format!("built-in {} {} on argument class `{}`", c.name, kills(&how), c.class),
             &builtin_key(c, &how),
             input,
         );
@@ -512,6 +556,57 @@ fn builtin_batch_worker(rep: &mut Report, seed: u64, thorough: bool, list: &str,
     }
 }
 
+
+// ------------------------------------------------------------------- contention
+
+/// List built-ins while other threads use the same list (see `conc.rs`): each
+/// case alone in a worker; abort / signal / timeout = violation, case = replay.
+fn conc_part(rep: &mut Report, viol: &mut Viol, thorough: bool) {
+    let cases = conc::cases(thorough);
+    let jobs: Vec<Vec<String>> = cases.iter().map(|c| one_job(&c.json)).collect();
+    let ended = run_parallel_n(&jobs, Duration::from_secs(if thorough { 300 } else { 40 }), 3);
+    for (c, e) in cases.iter().zip(ended) {
+        rep.evaluations += 1;
+        rep.hist("builtin", c.builtin);
+        rep.hist("conc-class", c.class.clone());
+        match &e {
+            Ended::Exit(0, out) if out.trim() == "RESULT ok" => {
+                rep.class(format!("conc|{}|{}|returned", c.builtin, c.class));
+                rep.hist("conc-outcome", "every call returned");
+            }
+            Ended::Exit(0, out) => {
+                rep.class(format!("conc|{}|{}|wrong-result", c.builtin, c.class));
+                rep.hist("conc-outcome", "wrong result");
+                rep.mismatch(
+                    "a list built-in returned a different result under contention than single-threaded (the lock model says calls are atomic)",
+                    json!({"case": c.json, "real": out.trim()}),
+                );
+            }
+            Ended::Exit(3, out) => {
+                rep.mismatch("contention case could not be set up", json!({"case": c.json, "error": out.trim()}));
+            }
+            other => {
+                let how = ended_str(other);
+                rep.class(format!("conc|{}|{}|{how}", c.builtin, c.class));
+                rep.hist("conc-outcome", format!("killed: {how}"));
+                let mut input = c.json.clone();
+                input["ended"] = json!(how);
+                if let Ended::Signal(_, err) = other {
+                    let msg: String = err.lines().find(|l| l.contains("panicked")).unwrap_or("").chars().take(300).collect();
+                    input["stderr"] = json!(msg);
+                }
+                let verb = if how == "timeout" { "builtin-timeout" } else { "builtin-abort" };
+                viol.add(
+                    rep,
+                    &format!("built-in {} {} when another thread uses the same list: `{}`", c.builtin, kills(&how), c.class),
+                    &format!("{verb} {} {}", c.builtin, if c.json["pair"].as_bool().unwrap_or(false) { "opposite-argument-order" } else { "under-contention" }),
+                    input,
+                );
+            }
+        }
+    }
+}
+
 // ------------------------------------------------------------------ single case
 
 /// Run one case (arith or builtin) in this process; prints `RESULT …`.
@@ -534,6 +629,7 @@ fn run_one(case: &J) -> Result<String, String> {
             let f = make_caller(&mut pkg, sig)?;
             Ok(f(&args))
         }
+        Some("conc") => conc::run(case),
         _ => Err("unknown case kind".into()),
     }
 }
@@ -549,11 +645,14 @@ fn main() {
             let only = args.get(4).map(|s| s.as_str()).unwrap_or("all");
             let mut drv = Driver::spawn().expect("lean driver");
             let mut viol = Viol { seen: BTreeSet::new() };
-            if only != "builtins" {
+            if only != "builtins" && only != "conc" {
                 arith_part(&mut rep, &mut viol, &mut drv, seed, thorough, &workdir);
             }
-            if only != "arith" {
+            if only != "arith" && only != "conc" {
                 builtin_part(&mut rep, &mut viol, &mut drv, seed, thorough, &workdir);
+            }
+            if only != "arith" && only != "builtins" {
+                conc_part(&mut rep, &mut viol, thorough);
             }
         }
         Some("worker") => match args[2].as_str() {
